@@ -30,6 +30,10 @@ def configs(tier):
         out.append((3, 3, -1, 0, 0, "complete"))
         out.append((3, 3, 1, 0, 0, "complete"))
         out.append((3, 4, -1, 1, 0, 2))
+        # four items on two workers: items k and k+2 can be done while k+1 is still in a worker when a further submit() runs (gap in the done list)
+        out.append((2, 4, -1, 0, 0, 2))
+        out.append((2, 4, -1, 2, 0, 2))
+        out.append((2, 4, 1, 0, 0, 1))
         # the API treats ANY non-zero callback result as failure: the default failing status is positive (42); negative status on the 2-worker core
         for n in (2, 3):
             for f in range(n):
